@@ -817,3 +817,228 @@ func earlyLoopExits(f *ssa.Function, h *ssa.BasicBlock, allowErrReturn bool) []*
 	}
 	return out
 }
+
+// loopBodyEntry returns, for a block inside a loop, the first block of the
+// body of the innermost enclosing loop (the in-loop successor of its header;
+// the header itself for a condition-less loop), or nil outside loops.
+func loopBodyEntry(b *ssa.BasicBlock) *ssa.BasicBlock {
+	var best *ssa.BasicBlock
+	for _, h := range loopHeaders(b.Parent()) {
+		if !inLoopBody(h, b) {
+			continue
+		}
+		if best == nil || best.Dominates(h) {
+			best = h
+		}
+	}
+	if best == nil {
+		return nil
+	}
+	if _, isIf := best.Instrs[len(best.Instrs)-1].(*ssa.If); !isIf {
+		return best
+	}
+	var entry *ssa.BasicBlock
+	for _, s := range best.Succs {
+		if s != best && inLoopBody(best, s) {
+			if entry != nil {
+				return best // both successors stay in the loop: the header is part of the body
+			}
+			entry = s
+		}
+	}
+	if entry == nil || !(entry == b || entry.Dominates(b)) {
+		return best
+	}
+	return entry
+}
+
+// livePhiValue: v may be a phi that joins the outcomes of a folded helper
+// (`return nil, false, err` / `return slots, watching, nil`). An edge is dead at
+// block `at` when a sibling phi of the same block is known nil (non-nil) at `at`
+// while its operand on that edge is known non-nil (nil) where the edge leaves.
+// When exactly one distinct value remains on the live edges it is returned
+// (recursively); otherwise v itself.
+func livePhiValue(v ssa.Value, at *ssa.BasicBlock) ssa.Value {
+	for hops := 0; hops < 4; hops++ {
+		ph, ok := v.(*ssa.Phi)
+		if !ok {
+			return v
+		}
+		dead := deadPhiEdges(ph, at)
+		var live []ssa.Value
+		for ei, e := range ph.Edges {
+			if dead[ei] {
+				continue
+			}
+			dup := false
+			for _, l := range live {
+				if l == e {
+					dup = true
+				}
+			}
+			if !dup {
+				live = append(live, e)
+			}
+		}
+		if len(live) != 1 {
+			return v
+		}
+		v = live[0]
+	}
+	return v
+}
+
+// deadPhiEdges: the edges of ph that cannot have been taken when control is at
+// block `at`, judged by the sibling phis of the same block (the other results
+// of a folded helper): a sibling known nil / non-nil at `at` whose operand on
+// that edge is known to be the opposite, or a boolean sibling joined from
+// constants that is known true / false at `at`.
+func deadPhiEdges(ph *ssa.Phi, at *ssa.BasicBlock) map[int]bool {
+	dead := map[int]bool{}
+	if at == nil {
+		return dead
+	}
+	for _, ins := range ph.Block().Instrs {
+		sib, isPhi := ins.(*ssa.Phi)
+		if !isPhi {
+			break
+		}
+		if sib == ph {
+			continue
+		}
+		for ei := range ph.Edges {
+			pred := ph.Block().Preds[ei]
+			for _, want := range []bool{true, false} {
+				if knownNil(at, sib, want) && edgeKnownNil(sib.Edges[ei], pred, !want) {
+					dead[ei] = true
+				}
+			}
+		}
+		if bt, ok := sib.Type().Underlying().(*types.Basic); !ok || bt.Kind() != types.Bool {
+			continue
+		}
+		for _, ec := range condsDominating(at) {
+			cond, val := ec.Cond, ec.Val
+			for {
+				if u, isNot := cond.(*ssa.UnOp); isNot && u.Op == token.NOT {
+					cond, val = u.X, !val
+					continue
+				}
+				break
+			}
+			if cond != ssa.Value(sib) {
+				continue
+			}
+			for ei, e := range sib.Edges {
+				if cst, isC := e.(*ssa.Const); isC && cst.Value != nil && cst.Value.Kind() == constant.Bool && constant.BoolVal(cst.Value) != val {
+					dead[ei] = true
+				}
+			}
+		}
+	}
+	return dead
+}
+
+func edgeKnownNil(v ssa.Value, pred *ssa.BasicBlock, wantNil bool) bool {
+	if isNilConst(v) {
+		return wantNil
+	}
+	if nonNilByConstruction(v) {
+		return !wantNil
+	}
+	return knownNil(pred, v, wantNil)
+}
+
+// errCarrier: the value through which an error result is observed: v itself
+// or, when the code computing it was folded into the function, the phi that
+// joins it with nil constants only (nil on the paths where the call is not made).
+func errCarrier(v ssa.Value) ssa.Value {
+	for hops := 0; hops < 3; hops++ {
+		refs := v.Referrers()
+		if refs == nil {
+			return v
+		}
+		var ph *ssa.Phi
+		n := 0
+		for _, r := range *refs {
+			if _, dbg := r.(*ssa.DebugRef); dbg {
+				continue
+			}
+			n++
+			if p, ok := r.(*ssa.Phi); ok {
+				ph = p
+			}
+		}
+		if n != 1 || ph == nil {
+			return v
+		}
+		for _, e := range ph.Edges {
+			if e != v && !isNilConst(e) {
+				return v
+			}
+		}
+		v = ph
+	}
+	return v
+}
+
+// knownNilVia: v is known nil (want) / non-nil (!want) at block b, directly, or
+// through a tested phi that stands for it - the joined result of a folded
+// helper (`if err == nil { return nil }; return fmt.Errorf("...: %w", err)`):
+// the phi being nil implies v is nil when each of its operands is v itself,
+// something non-nil by construction, or arrives from where v is known nil;
+// the phi being non-nil implies v is non-nil when each operand is v itself, a
+// nil constant, or arrives from where v is known non-nil.
+func knownNilVia(b *ssa.BasicBlock, v ssa.Value, want bool) bool {
+	return knownNilViaD(b, v, want, 0)
+}
+
+func knownNilViaD(b *ssa.BasicBlock, v ssa.Value, want bool, depth int) bool {
+	if knownNil(b, v, want) {
+		return true
+	}
+	if depth > 2 {
+		return false
+	}
+	for _, ec := range condsDominating(b) {
+		x, nilWhenTrue, ok := nilCheckOf(ec.Cond)
+		if !ok {
+			continue
+		}
+		ph, isPhi := x.(*ssa.Phi)
+		if !isPhi || (nilWhenTrue == ec.Val) != want {
+			continue
+		}
+		all := len(ph.Edges) > 0
+		for ei, e := range ph.Edges {
+			pred := ph.Block().Preds[ei]
+			switch {
+			case e == v:
+			case want && nonNilByConstruction(e):
+			case !want && isNilConst(e):
+			case knownNilViaD(pred, v, want, depth+1):
+			default:
+				all = false
+			}
+		}
+		if all {
+			return true
+		}
+	}
+	return false
+}
+
+func nonNilByConstruction(v ssa.Value) bool {
+	switch x := v.(type) {
+	case *ssa.Alloc, *ssa.MakeClosure, *ssa.MakeMap, *ssa.MakeChan, *ssa.MakeSlice:
+		return true
+	case *ssa.MakeInterface:
+		return nonNilByConstruction(x.X) || !isNilConst(x.X)
+	case *ssa.Call:
+		switch calleeFullName(x) {
+		case "fmt.Errorf", "errors.New":
+			return true
+		}
+	}
+	return false
+}
